@@ -87,14 +87,20 @@ def long_graph(r, k, G, start, n):
     """Long strands: clean rule walks (must come back untouched) and the same walks with two or
     three edits at every pair of offsets on a grid (candidates sorted, duplicate-free, check-consistent)."""
     acc = U.A(G)
-    for a, b in ((7, 3), (1, 0), (5, 1)):
-        w = U.rule_walk(G, start, n, a, b)
-        if len(w) < n:
+    base = ((7, 3), (1, 0), (5, 1))
+    more = [(a, b) for a in range(1, 8) for b in range(4) if (a, b) not in base] if getattr(G, 'desc', None) else []
+    seen_w = set()
+    for a, b in list(base) + more + ([('lcg', i) for i in range(40)] if more else []):
+        w = U.lcg_walk(G, start, 2 * n, b) if a == 'lcg' else U.rule_walk(G, start, n, a, b)
+        if len(w) < n or w in seen_w:
             continue
+        seen_w.add(w)
         for ck in ('absent', 'correct', 'wrong'):
             for indel, heap in ((False, 1000), (True, 1000), (True, 0)):
                 clean_case(r, k, G, acc, start, w, ck, indel, heap)
         r.ctr['clean_walks'] += 1
+        if (a, b) not in base:         # large orders: the other 25 rule walks and the 40 LCG-driven walks of 2n nt are checked clean only
+            continue
         step = k + 2
         pos = list(range(k, n - k, step))
         for i in range(0, len(pos) - 1, 2):
@@ -141,6 +147,11 @@ def _w_many(chunk):
 def _w_long(args):
     r = core.Res()
     k, G, start, n = args
+    if isinstance(G, tuple):          # large order: built in the worker from its rule
+        G = RP.big_graph(*G)
+        live = sorted(O.has_arcs(G))
+        start = live[0] if start == 'first' else live[-1] if start == 'last' else min(v for v in live if v >= len(G) // 2)
+        r.ctr['large_order_jobs'] += 1
     long_graph(r, k, G, start, n)
     return r
 
@@ -190,7 +201,12 @@ def run(ctx):
         for st_ in (live[0], live[-1]):
             for n in ((40,) if q else (40, 120)):
                 jobs.append((k, G, st_, n))
+    # orders 7-9 (10): vertex numbers beyond 2^15 / 2^16, graphs built by mc/repair.big_graph
+    for d in ((8, 3, 3, 5), (9, 3, 4, 5), (9, 2, 0, 9), (9, 3, 0, 9)) if q else ((7, 3, 3, 4), (7, 2, 0, 7), (8, 3, 3, 5), (8, 2, 0, 8), (9, 3, 4, 5), (9, 2, 0, 9), (9, 3, 0, 9), (10, 3, 4, 6), (10, 2, 0, 10)):
+        for st_ in ('first', 'half', 'last'):
+            jobs.append((d[0], d, st_, 60))
     ctx.pmap(_w_long, jobs)
+    ctx.guard('large orders', ctx.res.ctr['large_order_jobs'] >= 6)
     from ..coder import LITERAL
     from .C03 import tiny_closed_sets
     mg = [(2, [list(x) for x in LITERAL], 1), (1, O.from_mask({0, 1}, 1), 0)]
@@ -200,7 +216,7 @@ def run(ctx):
     ctx.pmap(_w_many, core.chunks_of(mj, 3))
     ctx.guard('many-error strands', ctx.res.ctr['many_error_strands'] > 50)
     ctx.bounds = {'many_errors': 'strands with m isolated errors, m in 1..11,16,17,18,20,25,33,40,64,65, with matching and non-matching checks',
-                  'long_strands': '%d (filter graph of order 2-5, start) pairs: clean rule walks of %s nt, and double edits on an offset grid' % (len(jobs), '40' if q else '40/120'),
+                  'long_strands': '%d (graph, start) pairs - filter graphs of order 2-5 and rule-built graphs of order %s: clean rule walks of %s nt (60 nt at the large orders), and double edits on an offset grid' % (len(jobs), '8-9' if q else '7-10', '40' if q else '40/120'),
                   'lengths': 'k..n with n = %s' % n_by_k, 'graphs': {'order1': len(fam), 'order2_binary': len(fam2), 'filter_k2_k3': len(fam3)},
                   'clean_options': str(OPTS_A), 'checks': 'absent / correct / wrong (clean walks); absent, own, and the check of every single-substitution neighbour (arbitrary strings)'}
     ctx.rule = ('clean: one case = (graph, start, walk, check kind, indel, heap): result is exactly [walk] (or [] iff the supplied check '
